@@ -317,6 +317,12 @@ func modLayers(data []byte) [2]ociregistry.Digest {
 var tidOf = syscall.Gettid
 
 func runChild(specJSON string) int {
+	if os.Getenv("C16_SECCOMP") == "1" {
+		if err := installSeccomp(); err != nil {
+			fmt.Fprintln(os.Stderr, "seccomp filter:", err)
+			return 2
+		}
+	}
 	var spec ChildSpec
 	if err := json.Unmarshal([]byte(specJSON), &spec); err != nil {
 		fmt.Fprintln(os.Stderr, "bad spec:", err)
@@ -337,6 +343,7 @@ func runChild(specJSON string) int {
 	var results []OpResult
 	var wg sync.WaitGroup
 	var ready atomic.Int32
+	start := make(chan struct{})
 	for ti, ops := range spec.Threads {
 		wg.Add(1)
 		go func() {
@@ -344,10 +351,10 @@ func runChild(specJSON string) int {
 			// One OS thread per goroutine: the tracer identifies the thread of
 			// control of every file-system effect by its tid.
 			runtime.LockOSThread()
-			ready.Add(1)
-			for int(ready.Load()) < len(spec.Threads) {
-				runtime.Gosched()
+			if int(ready.Add(1)) == len(spec.Threads) {
+				close(start)
 			}
+			<-start
 			for _, op := range ops {
 				m := spec.Mods[op.Mod]
 				res := OpResult{Thread: ti, Tid: tidOf(), Op: op}
